@@ -120,11 +120,11 @@ class T(unittest.TestCase):
         self.assertEqual(len(k.placements), 0)
 
     def test_kitty_chunks_and_zlib(self):
-        raw = bytes(range(256)) * 40
+        raw = bytes(range(256)) * 36  # 64 x 48 pixels of 3 bytes
         b64 = base64.b64encode(zlib.compress(raw)).decode()
         a, b = b64[:4096], b64[4096:]
         v = VTerm(4, 4, "kitty", keep_payload=True)
-        v.feed("\x1b_Ga=T,f=24,o=z,c=1,r=1,C=1,m=1;%s\x1b\\" % a)
+        v.feed("\x1b_Ga=T,f=24,s=64,v=48,o=z,c=1,r=1,C=1,m=1;%s\x1b\\" % a)
         self.assertFalse(v.ground())
         self.assertEqual(len(v.placements), 0)
         v.feed("\x1b_Gm=0;%s\x1b\\" % b)
